@@ -17,6 +17,13 @@ def check(prop, tier, seed):
     mc.append(st)
     for r in rows:
         r['class'] = 'tlc_table'
+    # a client CA that yields no trust anchor (empty PEM, a private key in its place): nobody may be served then
+    extra = []
+    for r in rows:
+        if r['alpn'] == 'h2' and r['client_auth'] != 'none' and r['roots'] == 'right' and r['name'] == 'match' and r['tls_cfg']:
+            for ca in ('empty', 'key_only'):
+                extra.append(dict(r, client_ca=ca, **{'class': 'unusable_client_ca'}))
+    rows = rows + extra
     ev, path = simple.run_lab('tls', rows, tag, 'table', timeout=3000)
     simple.validate(prop, 'Trace_Tls', verdict, ev, path, 'table', cov, clause_filter=lambda c: c.startswith('C15.') or c in ('NoPanic', 'NoHang'))
     cov['samples'].append({'family': 'table', 'stimulus': simple.sample_of(rows)})
